@@ -127,7 +127,7 @@ func Load(opts LoadOpts) (*Loaded, error) {
 
 // DefaultInitPkgs: dependency packages whose initialisers are interpreted.
 var DefaultInitPkgs = []string{
-	"unicode/utf8", "bytes", "strings", "hash/fnv", "path/filepath", "internal/filepathlite", "path",
+	"unicode/utf8", "bytes", "strings", "hash/fnv", "strconv", "path/filepath", "internal/filepathlite", "path",
 	"github.com/jsightapi/jsight-schema-core/bytes",
 	"github.com/jsightapi/jsight-schema-core/fs",
 	"github.com/jsightapi/jsight-schema-core/errs",
